@@ -27,6 +27,10 @@ def run_session_check(prop, tier, seed, t0, families, mc_jobs, rule, assumptions
     consumed, bad = vlib.validate_traces("ConnTrace", "ConnTrace.cfg", files, timeout=3000, xmx="4g")
     v = vlib.Verdict(prop, own_kinds=own_kinds)
     v.absorb(bad)
+    for idx in summ.get("aborted", []):
+        # the process died (abort, stack overflow, allocation failure) while this scenario ran
+        v.direct_violation(prop + ":noabort", {"what": "the harness process was aborted while this scenario ran",
+                                               "scenario": scn[idx] if idx < len(scn) else idx})
     kinds = Counter(s["kind"] for s in scn)
     # distinct non-trivial scenarios: distinct step lists that contain what the rule asks for
     seen = set()
